@@ -220,6 +220,13 @@ def run_large(rep, thorough, families):
         for i in range(0, len(rows), 500):
             setup.append('insert into t%s values %s' % (t, ', '.join('(%s, %s)' % (lit(a), lit(b)) for a, b in rows[i:i + 500])))
     cs = [c for c in cases(thorough) if c[1] in families and c[1] != 'join2' and not c[0].startswith(('topn:c1', 'order:c1', 'limit:'))]
+    # windows larger than one chunk: the top-N heap must hold offset + limit rows
+    ks, ksql = '(list $1.0 $1.1)', 'c0, c1'
+    if 'topn' in families:
+        for l, o in (('1100', '0'), ('10', '1500'), ('null', '5'), ('600', '600'), ('2000', '1000')):
+            lim = '-1' if l == 'null' else l
+            cs.append(('topn-big:%s:%s' % (l, o), 'topn', {'sort+limit': '(limit %s %s (order %s %s))' % (l, o, ks, L), 'top-n': '(topn %s %s %s %s)' % (l, o, ks, L)},
+                       'SELECT c0, c1 FROM t1 ORDER BY %s LIMIT %s OFFSET %s' % (ksql, lim, o), True))
     plans = []
     for c in cs:
         for impl, p in c[2].items():
